@@ -132,9 +132,22 @@ def run_case(ctx, gd, k, pol, return_all):
     nt = False
     if res is not None and len(gd["nodes"]) >= 3:
         nt = any(len(j.conditions) > 0 for j in res)
+    shown = sorted(f"{j.left} _||_ {j.right} | {','.join(map(str, j.conditions))}" for j in res or [])
+    if res is not None and sum(map(ord, gg.key(gd))) % 5 == 2:
+        # the caller empties the set it was handed and asks again (same graph object): a memo must not hand out its own set
+        try:
+            res.clear()
+        except AttributeError:
+            pass
+        kernel.count("C15:asked-again-after-editing-the-first-answer")
+        try:
+            get_conditional_independencies(g, max_conditions=k, **kw)
+        except Exception:  # noqa: BLE001
+            kernel.count("C15:second-call-raised")
+        res = None
     ctx.case(f"{gg.key(gd)}|{k}|{pol}|{return_all}", nt,
              sample={"graph": gd, "k": k, "policy": pol, "return_all": return_all,
-                     "independencies": sorted(f"{j.left} _||_ {j.right} | {','.join(map(str, j.conditions))}" for j in res or [])})
+                     "independencies": shown})
 
 
 def run_all_separations(ctx, gd, k):
